@@ -556,6 +556,20 @@ func runB(c *Case, r *mon.Rec, rng *rand.Rand, frames [][]byte, ref [][]byte, h 
 		for total := n; total < 700; total += n {
 			frames = append(frames, base...)
 		}
+		if (uint64(c.Seed)>>4)%2 == 0 {
+			// ... or a burst that ends exactly where the server's read buffer does (25 or 50 twelve-byte requests: 300 or 600
+			// bytes): a read that comes back full says nothing about more being on the way
+			frames = frames[:0]
+			for k := 0; k < 25*(1+int((uint64(c.Seed)>>5)%2)); k++ {
+				q := libx.LegalReq(rng, uint8([]int{3, 4, 3, 1}[k%4]), 0)
+				q.TID = uint16(0x3000 + k)
+				if q.Qty > 125 {
+					q.Qty = 5
+				}
+				frames = append(frames, q.Encode(specref.TCP))
+			}
+			r.Cover("layer", "B-burst-ending-on-the-read-buffer-boundary")
+		}
 		ref = refReplies(c, frames)
 		r.Cover("layer", "B-one-write-longer-than-the-read-buffer")
 	}
